@@ -32,7 +32,7 @@ def run(prog, tier):
                 'without weight rejected, locale bracket around the only strtod user; add_compound_data: operand/weight pairing, '
                 'sorted union, weighted sum.',
                 ['clang front end', 'E1 path enumeration on statement fragments (locals unconstrained on entry) with loop snapshots'],
-                ['the accepted language of the character scanner (first loop of CompoundParserSimple) is not decided',
+                ['the scanner\'s verdict is decided per character class pair (finite domain), not per string',
                  'libc strtod/bsearch/qsort/isdigit behave as specified; floating-point rounding is not considered',
                  'strtod of a run of digits with at most one dot is non-negative (used for positivity of the counts)'])
     f = prog.func('CompoundParserSimple', unit=U)
@@ -48,7 +48,62 @@ def run(prog, tier):
     comparators(prog, chk)
     compound_parser(prog, chk)
     add_compound(prog, chk)
+    scanner_alphabet(prog, chk, f, loops)
     return chk
+
+
+def scanner_alphabet(prog, chk, f, loops):
+    """The accepted alphabet and the bracket balance of the scanning pass.  The pass looks at the string only through comparisons with
+    character literals and ctype predicates, so its verdict for a character depends only on the class of that character and of its
+    predecessor: xvlib/charclass.py evaluates the if-chain for every class pair on the syntax tree and the table is compared with the
+    specification (a formula starts with an element symbol or a group; a lowercase letter continues a symbol, i.e. follows a
+    letter; digits and dots are subscript characters; blanks and anything else are rejected).  Bracket balance: the counter is
+    tested for < 0 after every character and for != 0 / > 0 after the loop, each leading to an error."""
+    from xvlib import charclass
+    from xvlib.twins import is_error_exit_c
+    sname = f['params'][0]['name']
+    scan = [l for l in loops if not calls_in(l['body'], 'bsearch') and not calls_in(l['body'], 'CompoundParserSimple') and
+            any(x.get('k') == 'DeclRefExpr' and x.get('name') == 'nbrackets' for x in walk(l['body']))]
+    loc = '%s:%d' % (U, f['ln'])
+    if len(scan) != 1:
+        chk.bad('scanner-alphabet', U, f['name'], 'scanning pass', loc, 'expected one scanning loop over the formula, found %d' % len(scan))
+        return
+    lp = scan[0]
+    loc = '%s:%d' % (U, lp['ln'])
+    ivar = [x for x in walk(lp.get('inc') or {}) if x.get('k') == 'DeclRefExpr'][0]['name']
+    body = f['body']['c']
+    first = [s_ for s_ in body[:body.index(lp)] if s_.get('k') == 'IfStmt']
+    sc = charclass.Scanner({sname}, ivar)
+    try:
+        got = charclass.table(first, lp['body'], sc, is_error_exit_c)
+    except charclass.Unknown as ex:
+        chk.inconclusive('scanner-alphabet', loc, str(ex))
+        return
+    spec = charclass.specification()
+    R = charclass.REPR
+    for c0 in charclass.CLASSES:
+        if c0 == 'close':
+            continue            # decided by the bracket-balance rule below
+        chk.decide(got['first'][c0] == spec['first'][c0], 'scanner-alphabet', U, f['name'], 'first character %r' % R[c0], loc,
+                   'a formula that starts with %r (%s) must be %sed; the scanner %ss it' % (R[c0], c0, spec['first'][c0], got['first'][c0]),
+                   why='%sed' % spec['first'][c0])
+    for (pv, cu), want in sorted(spec['pair'].items()):
+        chk.decide(got['pair'][(pv, cu)] == want, 'scanner-alphabet', U, f['name'], '%r after %r' % (R[cu], R[pv]), loc,
+                   'outside brackets a %s character after a %s character must be %sed; the scanner %ss it (e.g. the formula "%s")' % (
+                       cu, pv, want, got['pair'][(pv, cu)], {'close': '(OH)', 'open': 'H(', 'dot': 'H.', 'digit': 'H2', 'space': 'H ', 'other': 'H+'}.get(pv, 'H' if pv == 'upper' else 'He') + R[cu]),
+                   why='%sed' % want)
+    # bracket balance
+    neg = [n for n in walk(lp['body']) if n.get('k') == 'IfStmt' and is_error_exit_c(n.get('then') or {}) and
+           show(n['cond']).replace(' ', '').replace('(', '').replace(')', '') in ('nbrackets<0', '0>nbrackets')]
+    after = [n for n in body[body.index(lp) + 1:] if n.get('k') == 'IfStmt' and is_error_exit_c(n.get('then') or {}) and
+             show(n['cond']).replace(' ', '').replace('(', '').replace(')', '') in ('nbrackets>0', '0<nbrackets', 'nbrackets!=0', '0!=nbrackets')]
+    # the per-character test must be the last statement of the loop body (after the counter was updated)
+    last = (lp['body'].get('c') or [None])[-1] if lp['body'].get('k') == 'CompoundStmt' else None
+    chk.decide(bool(neg) and last is not None and neg[0] is last, 'bracket-balance', U, f['name'], 'close before open', loc,
+               'a closing bracket without an open one must be rejected as soon as it is seen (counter < 0 after every character): with only a '
+               'count at the end, ")(" pairs pass', why='nbrackets < 0 tested after every character')
+    chk.decide(bool(after), 'bracket-balance', U, f['name'], 'unclosed at the end', loc,
+               'brackets still open at the end of the string must be rejected', why='nbrackets > 0 tested after the loop')
 
 
 def local_ids(f):
